@@ -5,6 +5,7 @@
 From Coq Require Import List QArith Qminmax Bool.
 From SB3V Require Import Gen.Frag_runningmoments Model.RunningMoments Model.VecNorm
   Proofs.RunningMomentsProofs Proofs.VecNormProofs.
+From SB3V Require Import Gen.Frag_vecnormkeyed Model.VecNormKeyed Proofs.VecNormKeyedProofs.
 Import ListNotations.
 Local Open Scope Q_scope.
 
@@ -259,3 +260,162 @@ Print Assumptions C15_unnormalize_off_is_identity.
 Theorem C15_prior_is_documented : eps_default = 1 # 10000 /\ rms_init eps_default = mk_rms 0 1 (1 # 10000).
 Proof. exact prior_is_documented. Qed.
 Print Assumptions C15_prior_is_documented.
+
+(* ================= build round 5: Dict observations with norm_obs_keys (Model/VecNormKeyed.v) ================= *)
+(* (c) one key of the keyed model IS the single-array model with all of its channels selected: every operation, hence every history,
+   commutes with the projection onto a key - all single-array theorems above hold for each selected key *)
+Theorem C15_keyed_single_key_instance : forall upd red p h st k,
+  proj k (kvn_run upd red p st h)
+  = vn_run upd red (projp p (length (kget k (k_rms st) []))) (proj k st) (map (proj_op k) h).
+Proof. exact proj_run_sim. Qed.
+Print Assumptions C15_keyed_single_key_instance.
+
+Theorem C15_keyed_entry_is_single_array : forall p st hints k x,
+  kmem k (k_keys st) = true ->
+  length (kget k (k_rms st) []) = length x -> length (kget k hints []) = length x ->
+  knorm_entry p st hints k x = normalize_obs_model (projp p (length x)) (proj k st) (kget k hints []) x.
+Proof. exact keyed_entry_is_single_array. Qed.
+Print Assumptions C15_keyed_entry_is_single_array.
+
+(* (a) keys outside norm_obs_keys: returned observation, unnormalised observation, terminal observation unchanged; the original
+   observation is the raw Dict; no statistics ever exist for them; the returned Dict has the same keys in the same order *)
+Theorem C15_keyed_unselected_passthrough : forall p st hints o j d,
+  kmem j (k_keys st) = false ->
+  kget j (knormalize p st hints o) d = kget j o d /\ kget j (kunnormalize p st hints o) d = kget j o d.
+Proof. exact keyed_unselected_passthrough. Qed.
+Print Assumptions C15_keyed_unselected_passthrough.
+
+Theorem C15_keyed_terminal_passthrough : forall p st hints done x y j d,
+  kmem j (k_keys st) = false -> kterm_out p st hints done (Some x) = Some y -> kget j y d = kget j x d.
+Proof. exact keyed_terminal_passthrough. Qed.
+Print Assumptions C15_keyed_terminal_passthrough.
+
+Theorem C15_keyed_original_is_raw : forall upd red p st obs rews dones,
+  k_old_obs (kvn_op upd red p st (KStep obs rews dones)) = obs /\ k_old_obs (kvn_op upd red p st (KReset obs)) = obs /\
+  v_old_rew (k_base (kvn_op upd red p st (KStep obs rews dones))) = rews.
+Proof. exact keyed_original_is_raw. Qed.
+Print Assumptions C15_keyed_original_is_raw.
+
+Theorem C15_keyed_unselected_no_stats : forall upd red p ks keys n t no nr h j,
+  ~ In j keys -> ~ In j (map fst (k_rms (kvn_run upd red p (kvn_init ks keys n t no nr) h))).
+Proof. exact keyed_unselected_no_stats. Qed.
+Print Assumptions C15_keyed_unselected_no_stats.
+
+Theorem C15_keyed_output_keeps_keys : forall p st hints o,
+  map fst (knormalize p st hints o) = map fst o /\ map fst (kunnormalize p st hints o) = map fst o.
+Proof. exact knormalize_keys. Qed.
+Print Assumptions C15_keyed_output_keeps_keys.
+
+(* (b) a selected key's statistics = updates with exactly that key's batches (while training and norm_obs) = the moments of that
+   key's stream merged with the documented prior *)
+Theorem C15_keyed_stats_stream : forall upd red p h st k ch d, (ch < length (kget k (k_rms st) []))%nat ->
+  nth ch (kget k (k_rms (kvn_run upd red p st h)) []) d
+  = fold_left upd (kobs_batches k ch (v_training (k_base st)) (v_norm_obs (k_base st)) h) (nth ch (kget k (k_rms st) []) d).
+Proof. exact keyed_stats_stream. Qed.
+Print Assumptions C15_keyed_stats_stream.
+
+Theorem C15_keyed_stats_are_stream_moments : forall red p ks keys n t nr h k ch,
+  In k keys -> (ch < kwidth ks k)%nat ->
+  Forall (fun b => b <> []) (kobs_batches k ch t true h) ->
+  let u := nth ch (kget k (k_rms (kvn_run update red p (kvn_init ks keys n t true nr) h)) []) (rms_init eps_default) in
+  let xs := concat (kobs_batches k ch t true h) in
+  r_count u == eps_default + qlen xs /\
+  r_mean u == qsuml xs / (eps_default + qlen xs) /\
+  r_var u == (eps_default + sumsq xs) / (eps_default + qlen xs) - r_mean u * r_mean u.
+Proof. exact keyed_stats_are_stream_moments. Qed.
+Print Assumptions C15_keyed_stats_are_stream_moments.
+
+(* (b) independence: histories that show key j the same stream (other keys arbitrary) give key j the same statistics, the same
+   returned / unnormalised values and the same original observation *)
+Theorem C15_keyed_independence : forall upd red p st h h' j hints o,
+  map (proj_op j) h = map (proj_op j) h' ->
+  let a := kvn_run upd red p st h in let b := kvn_run upd red p st h' in
+  kget j (k_rms a) [] = kget j (k_rms b) [] /\
+  kget j (knormalize p a hints o) [] = kget j (knormalize p b hints o) [] /\
+  kget j (kunnormalize p a hints o) [] = kget j (kunnormalize p b hints o) [] /\
+  kcol j (k_old_obs a) = kcol j (k_old_obs b).
+Proof. exact keyed_outputs_independent. Qed.
+Print Assumptions C15_keyed_independence.
+
+Example C15_keyed_example :
+  (* Dict {0: Box(1), 1: Box(1), 2: Discrete}, norm_obs_keys = [1]; two histories that differ only on keys 0 and 2 *)
+  let ks := [(0, Some 1); (1, Some 1); (2, None)]%nat in
+  let p := mk_vnp 10 10 (1 # 2) 0 [] in
+  let st := kvn_init ks [1%nat] 2 true true true in
+  let h  := [KReset [[(0%nat, [5]); (1%nat, [1]); (2%nat, [3])]; [(0%nat, [6]); (1%nat, [2]); (2%nat, [4])]]] in
+  let h' := [KReset [[(0%nat, [7]); (1%nat, [1]); (2%nat, [0])]; [(0%nat, [8]); (1%nat, [2]); (2%nat, [1])]]] in
+  map (proj_op 1) h = map (proj_op 1) h' /\ h <> h' /\ kobs_batches 1 0 true true h = [[1; 2]] /\
+  map fst (k_rms (kvn_run update idq_ p st h)) = [1%nat] /\ kmem 2 (k_keys st) = false /\ In 1%nat [1%nat] /\ (0 < kwidth ks 1)%nat /\
+  knormalize p st [(1%nat, [1])] [(0%nat, [5]); (1%nat, [1]); (2%nat, [3])] = [(0%nat, [5]); (1%nat, [normalize_s 1 0 1 10]); (2%nat, [3])].
+Proof. cbn. repeat split; try discriminate; auto. Qed.
+
+(* ---- constructor: _sanity_checks as a decision function ---- *)
+Theorem C15_sanity_accepts_iff : forall s keys,
+  ctor_accepts true s keys = true <->
+  (exists ks, s = SDict ks /\ forall k, In k (effective_keys s keys) -> exists w, kget k ks None = Some w) \/
+  (exists w, s = SBox w /\ keys = None).
+Proof. exact sanity_accepts_iff. Qed.
+Print Assumptions C15_sanity_accepts_iff.
+
+Theorem C15_sanity_off_accepts_all : forall s keys, ctor_accepts false s keys = true.
+Proof. exact ctor_norm_obs_off. Qed.
+Print Assumptions C15_sanity_off_accepts_all.
+
+(* the decision structure regenerated from __init__ / _sanity_checks computes the model's decision *)
+Theorem C15_sanity_fragments : forall s keys norm_obs,
+  sanity_frag s keys = sanity_accepts s keys /\
+  (if vnk_ctor_checks_guard norm_obs then sanity_frag s keys else true) = ctor_accepts norm_obs s keys.
+Proof. exact frag_sanity. Qed.
+Print Assumptions C15_sanity_fragments.
+
+Example C15_sanity_example :
+  let ks := [(0, Some 2); (1, None); (2, Some 3)]%nat in
+  ctor_accepts true (SDict ks) (Some [0; 2]%nat) = true /\ ctor_accepts true (SDict ks) None = false /\
+  ctor_accepts true (SDict ks) (Some [1%nat]) = false /\ ctor_accepts true (SDict ks) (Some [7%nat]) = false /\
+  ctor_accepts true (SBox 2) (Some [0%nat]) = false /\ ctor_accepts true (SBox 2) None = true /\ ctor_accepts true SOther None = false /\
+  ctor_accepts false SOther (Some [0%nat]) = true.
+Proof. repeat split. Qed.
+
+(* the key loops of step_wait / reset / normalize_obs / unnormalize_obs: loop source, updated / replaced / read entry, all the same key *)
+Theorem C15_key_loop_fragments : forall a b,
+  vnk_step_dict_guard a b = a && b /\ vnk_reset_dict_guard a b = a && b /\
+  (vnk_step_loop_source, vnk_step_update_stat_key, vnk_step_update_obs_key) = (1, 1, 1)%Z /\
+  (vnk_reset_loop_source, vnk_reset_update_stat_key, vnk_reset_update_obs_key) = (1, 1, 1)%Z /\
+  vnk_norm_dict_guard a b = a && b /\ vnk_unnorm_dict_guard a b = a && b /\ vnk_unnorm_guard a = a /\
+  (vnk_norm_loop_source, vnk_norm_target_key, vnk_norm_source_key, vnk_norm_stat_key) = (1, 1, 1, 1)%Z /\
+  (vnk_unnorm_loop_source, vnk_unnorm_target_key, vnk_unnorm_source_key, vnk_unnorm_stat_key) = (1, 1, 1, 1)%Z.
+Proof. exact frag_key_loops. Qed.
+Print Assumptions C15_key_loop_fragments.
+
+(* ---- pickle round trip + set_venv on the keyed model: statistics of every key, the key selection, flags, ret_rms preserved;
+   returns = zeros of the NEW n_envs; a wrapper that already has a venv refuses; a legacy pickle gets all keys of its Dict space;
+   the loaded wrapper goes on, key by key, like the single-array model started from the loaded state ---- *)
+Theorem C15_keyed_pickle_preserves : forall st n,
+  k_rms (kunpickle_pickle st n) = k_rms st /\ k_keys (kunpickle_pickle st n) = k_keys st /\
+  k_old_obs (kunpickle_pickle st n) = k_old_obs st /\
+  v_ret_rms (k_base (kunpickle_pickle st n)) = v_ret_rms (k_base st) /\
+  v_training (k_base (kunpickle_pickle st n)) = v_training (k_base st) /\
+  v_norm_obs (k_base (kunpickle_pickle st n)) = v_norm_obs (k_base st) /\
+  v_norm_reward (k_base (kunpickle_pickle st n)) = v_norm_reward (k_base st) /\
+  v_returns (k_base (kunpickle_pickle st n)) = repeat 0 n /\
+  (forall k, v_obs_rms (proj k (kunpickle_pickle st n)) = v_obs_rms (proj k st)).
+Proof. exact keyed_pickle_preserves. Qed.
+Print Assumptions C15_keyed_pickle_preserves.
+
+Theorem C15_keyed_set_venv : forall has st n,
+  kset_venv has st n = if vnk_set_venv_refuse_guard (negb has) true then None else Some (kunpickle_pickle st n).
+Proof. exact keyed_set_venv. Qed.
+Print Assumptions C15_keyed_set_venv.
+
+Theorem C15_setstate_fragments : forall missing is_dict s keys,
+  vnk_setstate_legacy_guard missing is_dict = missing && is_dict /\
+  (vnk_setstate_legacy_source, vnk_set_venv_num_envs_source, vnk_set_venv_returns_len) = (1, 1, 1)%Z /\
+  ksetstate_keys s (Some keys) = keys /\ (forall ks, ksetstate_keys (SDict ks) None = map fst ks).
+Proof. exact frag_setstate. Qed.
+Print Assumptions C15_setstate_fragments.
+
+Theorem C15_keyed_loaded_continues : forall upd red p st n h k,
+  proj k (kvn_run upd red p (kunpickle_pickle st n) h)
+  = vn_run upd red (projp p (length (kget k (k_rms st) []))) (unpickle_pickle (proj k st) n) (map (proj_op k) h).
+Proof. exact keyed_loaded_continues. Qed.
+Print Assumptions C15_keyed_loaded_continues.
